@@ -168,3 +168,128 @@ def translate(params, lines):
         return None, "no ret"
     return "{| nparams := %d; body := [%s]; ret := %s; retw := %d |}" % (
         len(ptys), "; ".join(body), ret[0], ret[1]), None
+
+
+AGG_FIELDS = {"Slice": 3, "String": 2}
+
+
+def translate_check_prefix(params, lines):
+    """Bounds-check prefix of a function: aggregate parameters (Slice {ptr,len,cap},
+    String {ptr,len}) are flattened into consecutive environment slots, pointer
+    parameters take one slot, `extractvalue` of a parameter maps to its slot, and
+    translation stops at the first memory instruction (getelementptr/load/store/
+    alloca/call of a non-assert) provided no Assert call follows it.  Returns
+    (term, slots, None) or (None, None, reason); slots describes the environment:
+    list of ("int", width) / ("ptr",) / ("field", param, index)."""
+    plist = []
+    depth = 0
+    cur = ""
+    for ch in params:
+        if ch == "," and depth == 0:
+            plist.append(cur.strip())
+            cur = ""
+        else:
+            if ch in "({[<":
+                depth += 1
+            if ch in ")}]>":
+                depth -= 1
+            cur += ch
+    if cur.strip():
+        plist.append(cur.strip())
+    slots = []
+    vmap = {}
+    aggs = {}
+    for pi, p in enumerate(plist):
+        m = re.match(r'(i\d+|ptr|%"[^"]*\.(Slice|String)")\s+%(\d+)', p)
+        if not m:
+            return None, None, "parameter " + p
+        n = int(m.group(3))
+        if m.group(1).startswith("i"):
+            vmap[n] = len(slots)
+            slots.append(("int", int(m.group(1)[1:])))
+        elif m.group(1) == "ptr":
+            vmap[n] = len(slots)
+            slots.append(("ptr",))
+        else:
+            aggs[n] = (len(slots), AGG_FIELDS[m.group(2)])
+            for k in range(AGG_FIELDS[m.group(2)]):
+                slots.append(("field", pi, k))
+    nenv = [len(slots)]
+
+    def op(tok):
+        tok = tok.strip()
+        if tok.startswith("%"):
+            if not tok[1:].isdigit() or int(tok[1:]) not in vmap:
+                return None
+            return "Val %d" % vmap[int(tok[1:])]
+        return _op(tok)
+
+    def define(n):
+        vmap[n] = nenv[0]
+        nenv[0] += 1
+    body = []
+    stopped = False
+    seen_block = False
+    for ln in lines:
+        s = ln.strip()
+        if not s.startswith("call"):
+            s = s.split(";")[0].strip()
+        if not s:
+            continue
+        if re.fullmatch(r"[\w.$]+:", s):
+            if seen_block:
+                stopped = True
+            seen_block = True
+            continue
+        is_assert = re.fullmatch(r'call void @"[^"]*\.(Assert\w+)"\(i1 (\S+)\)', s)
+        if stopped:
+            if is_assert:
+                return None, None, "assert after a memory instruction"
+            continue
+        if is_assert and is_assert.group(1) in ASSERT:
+            o = op(is_assert.group(2))
+            if o is None:
+                return None, None, "assert operand"
+            body.append("IAssert %s (%s)" % (ASSERT[is_assert.group(1)], o))
+            continue
+        m = re.fullmatch(r'%(\d+) = extractvalue %"[^"]*" %(\d+), (\d+)', s)
+        if m and int(m.group(2)) in aggs:
+            base, nf = aggs[int(m.group(2))]
+            if int(m.group(3)) >= nf:
+                return None, None, "extractvalue index"
+            vmap[int(m.group(1))] = base + int(m.group(3))
+            continue
+        m = re.fullmatch(r"%(\d+) = (\w+)(?: nsw| nuw| exact)* (i\d+) (\S+), (\S+)", s)
+        if m and m.group(2) in BIN:
+            a, b = op(m.group(4)), op(m.group(5))
+            if a is None or b is None:
+                return None, None, "operand " + s
+            define(int(m.group(1)))
+            body.append("IBin %s %d (%s) (%s)" % (BIN[m.group(2)], _w(m.group(3)), a, b))
+            continue
+        m = re.fullmatch(r"%(\d+) = icmp (\w+) (i\d+) (\S+), (\S+)", s)
+        if m and m.group(2) in PRED:
+            a, b = op(m.group(4)), op(m.group(5))
+            if a is None or b is None:
+                return None, None, "operand " + s
+            define(int(m.group(1)))
+            body.append("ICmp %s %d (%s) (%s)" % (PRED[m.group(2)], _w(m.group(3)), a, b))
+            continue
+        m = re.fullmatch(r"%(\d+) = select i1 (\S+), (i\d+) (\S+), (i\d+) (\S+)", s)
+        if m:
+            c, a, b = op(m.group(2)), op(m.group(4)), op(m.group(6))
+            if None in (c, a, b):
+                return None, None, "operand " + s
+            define(int(m.group(1)))
+            body.append("ISelect %d (%s) (%s) (%s)" % (_w(m.group(3)), c, a, b))
+            continue
+        m = re.fullmatch(r"%(\d+) = (trunc|zext|sext) (i\d+) (\S+) to (i\d+)", s)
+        if m:
+            a = op(m.group(4))
+            if a is None:
+                return None, None, "operand " + s
+            define(int(m.group(1)))
+            body.append("ICast %s %d %d (%s)" % (CAST[m.group(2)], _w(m.group(3)), _w(m.group(5)), a))
+            continue
+        stopped = True
+    return "{| nparams := %d; body := [%s]; ret := Cst 0; retw := 1 |}" % (len(slots), "; ".join(body)), slots, None
